@@ -515,8 +515,17 @@ fn layer3(kind: &'static str, mode: AccessListMode) -> (u64, Vec<(String, String
             }
         }
         // the next timer-driven cleaning pass removes what the list in force forbids and nothing else
-        std::thread::sleep(Duration::from_millis(2300));
+        let before: BTreeSet<u8> = stored.clone();
         stored.retain(|h| allows_exp(mode, &list, *h));
+        // wait at least two cleaning intervals; then, if something has to go, poll until it is gone (10 s at most)
+        std::thread::sleep(Duration::from_millis(2300));
+        let t_poll = Instant::now();
+        while before != stored && t_poll.elapsed() < Duration::from_secs(10) {
+            if before.difference(&stored).all(|h| scrape(*h) == Some(false)) {
+                break;
+            }
+            std::thread::sleep(Duration::from_millis(100));
+        }
         for h in [A, B, C] {
             checks += 1;
             let got = scrape(h);
